@@ -362,7 +362,14 @@ const TimeZone::Data::LocalTime* TimeZone::Data::findLocalTime(
 
   if (transitions.empty() || localtime < transitions.front().localtime)
   {
-    // FIXME: should be first non dst time zone
+    // Before the first transition localtimes.front() is in force, as in findLocalTime(utcTime)
+    // (FIXME: should be first non dst time zone).  A local time the first transition skipped
+    // is, for the reading after the transition, a time of the first transition's record.
+    if (postTransition && !transitions.empty()
+        && transitions.front().utctime - 1 + localtimes.front().utcOffset < localtime)
+    {
+      return &localtimes[transitions.front().localtimeIdx];
+    }
     return &localtimes.front();
   }
 
@@ -409,6 +416,13 @@ const TimeZone::Data::LocalTime* TimeZone::Data::findLocalTime(
   {
     prior_trans = *(transI - 1);
     prior_second = transI->utctime - 1 + localtimes[prior_trans.localtimeIdx].utcOffset;
+  }
+  else
+  {
+    // The first transition: before it localtimes.front() is in force (see above), so the
+    // first transition, too, may have repeated this local time.
+    prior_trans.localtimeIdx = 0;
+    prior_second = transI->utctime - 1 + localtimes.front().utcOffset;
   }
   if (localtime <= prior_second)
   {
